@@ -97,3 +97,155 @@ def tables(fnode, subject, cases=None):
             pass
         out[c] = tab
     return out
+
+
+# ------------------------------------------------------------------------------------------------ decision tables
+def _logical(e):
+    return isinstance(e, (ast.BoolOp, ast.Compare)) or (isinstance(e, ast.UnaryOp) and isinstance(e.op, ast.Not))
+
+
+def _atoms(e, out):
+    if isinstance(e, ast.BoolOp):
+        for v in e.values:
+            _atoms(v, out)
+    elif isinstance(e, ast.UnaryOp) and isinstance(e.op, ast.Not):
+        _atoms(e.operand, out)
+    elif isinstance(e, ast.IfExp):
+        for v in (e.test, e.body, e.orelse):
+            _atoms(v, out)
+    elif isinstance(e, ast.Compare):
+        if len(e.ops) == 1 and isinstance(e.ops[0], (ast.Eq, ast.NotEq)) and _logical(e.left) and _logical(e.comparators[0]):
+            _atoms(e.left, out)
+            _atoms(e.comparators[0], out)
+            return
+        terms = [e.left] + list(e.comparators)
+        for a, op, b in zip(terms, e.ops, terms[1:]):
+            t = _atom_text(a, op, b)[0]
+            if t not in out:
+                out.append(t)
+    else:
+        t = ast.unparse(e)
+        if t not in out:
+            out.append(t)
+
+
+_TEXT = {}
+
+
+def _atom_text(a, op, b):
+    k = (id(a), type(op), id(b))
+    if k not in _TEXT:
+        _TEXT[k] = (_atom_text0(a, op, b), a, b)       # the nodes are kept alive with their key
+    return _TEXT[k][0]
+
+
+def _atom_text0(a, op, b):
+    """(text of the positive atom, negated?) of one comparison link"""
+    neg = {ast.NotEq: ast.Eq, ast.NotIn: ast.In, ast.IsNot: ast.Is}
+    if type(op) in neg:
+        return ast.unparse(ast.Compare(left=a, ops=[neg[type(op)]()], comparators=[b])), True
+    if isinstance(op, (ast.Gt, ast.GtE)):
+        op2 = ast.Lt() if isinstance(op, ast.Gt) else ast.LtE()
+        return ast.unparse(ast.Compare(left=b, ops=[op2], comparators=[a])), False
+    return ast.unparse(ast.Compare(left=a, ops=[op], comparators=[b])), False
+
+
+def _value(e, env):
+    if isinstance(e, ast.BoolOp):
+        vals = [_value(v, env) for v in e.values]
+        return all(vals) if isinstance(e.op, ast.And) else any(vals)
+    if isinstance(e, ast.UnaryOp) and isinstance(e.op, ast.Not):
+        return not _value(e.operand, env)
+    if isinstance(e, ast.IfExp):
+        return _value(e.body, env) if _value(e.test, env) else _value(e.orelse, env)
+    if isinstance(e, ast.Compare):
+        if len(e.ops) == 1 and isinstance(e.ops[0], (ast.Eq, ast.NotEq)) and _logical(e.left) and _logical(e.comparators[0]):
+            r = bool(_value(e.left, env)) == bool(_value(e.comparators[0], env))
+            return r if isinstance(e.ops[0], ast.Eq) else not r
+        terms = [e.left] + list(e.comparators)
+        for a, op, b in zip(terms, e.ops, terms[1:]):
+            t, neg = _atom_text(a, op, b)
+            if bool(env[t]) == neg:
+                return False
+        return True
+    k = id(e)
+    if k not in _TEXT:
+        _TEXT[k] = (ast.unparse(e), e)
+    return env[_TEXT[k][0]]
+
+
+def decision_table(fnode, max_atoms=10):
+    """(atoms, {assignment tuple: text of the returned / raised outcome}) of a function made of tests and returns; the function's
+    locals must have been written out (through_locals) so that tests and results are expressions over the parameters"""
+    import itertools
+    atoms = []
+    for n in ast.walk(fnode):
+        if isinstance(n, (ast.If, ast.IfExp, ast.While)):
+            _atoms(n.test, atoms)
+    if len(atoms) > max_atoms:
+        raise CannotAnalyse(f'decision table: {len(atoms)} atoms')
+
+    class Out(Exception):
+        pass
+
+    def run(stmts, env):
+        for s in stmts:
+            if isinstance(s, ast.Expr) and isinstance(s.value, ast.Constant):
+                continue
+            if isinstance(s, ast.If):
+                run(s.body if _value(s.test, env) else s.orelse, env)
+            elif isinstance(s, ast.Return):
+                raise Out(ast.unparse(s.value) if s.value is not None else 'None')
+            elif isinstance(s, ast.Raise):
+                raise Out('raise ' + (ast.unparse(s.exc.func) if isinstance(s.exc, ast.Call) else ast.unparse(s.exc) if s.exc else ''))
+            elif isinstance(s, (ast.Assign, ast.AnnAssign, ast.Pass)):
+                continue            # locals: already written out at their uses
+            else:
+                raise CannotAnalyse(f'decision table: statement {type(s).__name__}')
+        return None
+    table = {}
+    for vals in itertools.product((False, True), repeat=len(atoms)):
+        env = dict(zip(atoms, vals))
+        try:
+            run(fnode.body, env)
+            table[vals] = 'None'
+        except Out as o:
+            table[vals] = o.args[0]
+    return atoms, table
+
+
+def same_decisions(fa, fb):
+    """two functions (locals written out) take the same decision under every assignment of the union of their test atoms;
+    returns (equal?, first difference text)"""
+    import itertools
+    aa, _ = decision_table(fa)
+    ab, _ = decision_table(fb)
+    atoms = aa + [x for x in ab if x not in aa]
+    if len(atoms) > 12:
+        raise CannotAnalyse(f'decision table: {len(atoms)} atoms')
+
+    def outcome(fn, env):
+        class Out(Exception):
+            pass
+
+        def run(stmts):
+            for s in stmts:
+                if isinstance(s, ast.Expr) and isinstance(s.value, ast.Constant):
+                    continue
+                if isinstance(s, ast.If):
+                    run(s.body if _value(s.test, env) else s.orelse)
+                elif isinstance(s, ast.Return):
+                    raise Out(ast.unparse(s.value).replace(' ', '') if s.value is not None else 'None')
+                elif isinstance(s, ast.Raise):
+                    raise Out('raise')
+        try:
+            run(fn.body)
+        except Out as o:
+            return o.args[0]
+        return 'None'
+    for vals in itertools.product((False, True), repeat=len(atoms)):
+        env = dict(zip(atoms, vals))
+        x, y = outcome(fa, env), outcome(fb, env)
+        if x != y:
+            return False, f'with {[a for a, v in env.items() if v]} true: {x} vs {y}'
+    return True, ''
